@@ -100,3 +100,46 @@ Section DictFacts.
     - destruct (k =? k'); rewrite !dcount_cons; [destruct (Z.eq_dec (f v) x), (Z.eq_dec (f v') x); lia|lia].
   Qed.
 End DictFacts.
+
+Section DictFacts2.
+  Context {V : Type}.
+  Implicit Types d : dict V.
+
+  Lemma dget_dset_other d k v k2 : k2 <> k -> dget k2 (dset d k v) = dget k2 d.
+  Proof.
+    intros Hne. induction d as [|[k' v'] t IH]; cbn [dset dget].
+    - destruct (Z.eqb_spec k2 k); [congruence|reflexivity].
+    - destruct (Z.eqb_spec k k') as [->|Hk]; cbn [dget].
+      + destruct (Z.eqb_spec k2 k'); [congruence|reflexivity].
+      + destruct (k2 =? k'); [reflexivity|exact IH].
+  Qed.
+
+  Lemma dget_ddel_other d k k2 : k2 <> k -> dget k2 (ddel k d) = dget k2 d.
+  Proof.
+    intros Hne. induction d as [|[k' v'] t IH]; cbn [ddel dget]; [reflexivity|].
+    destruct (Z.eqb_spec k k') as [->|Hk]; cbn [dget].
+    - destruct (Z.eqb_spec k2 k'); [congruence|reflexivity].
+    - destruct (k2 =? k'); [reflexivity|exact IH].
+  Qed.
+
+  Lemma dget_ddel_same d k : NoDup (dkeys d) -> dget k (ddel k d) = None.
+  Proof.
+    intros H. destruct (dget k (ddel k d)) as [v|] eqn:E; [|reflexivity].
+    apply dget_In in E. exfalso. eapply ddel_removes; eauto.
+  Qed.
+
+  Lemma dget_None_dkeys k d : dget k d = None <-> ~ In k (dkeys d).
+  Proof.
+    split.
+    - intros H Hin. unfold dkeys in Hin. apply in_map_iff in Hin as [[k' v] [E Hin]]. cbn in E. subst k'.
+      eapply dget_None_notin; eauto.
+    - intros H. destruct (dget k d) as [v|] eqn:E; [|reflexivity]. exfalso. apply H. eapply In_dkeys, dget_In; eauto.
+  Qed.
+
+  (* setting a new key appends *)
+  Lemma dset_new d k v : dget k d = None -> dset d k v = d ++ [(k, v)].
+  Proof.
+    induction d as [|[k' v'] t IH]; cbn [dget dset app]; [reflexivity|].
+    destruct (k =? k'); [discriminate|]. intros H. rewrite (IH H). reflexivity.
+  Qed.
+End DictFacts2.
